@@ -34,3 +34,21 @@ class UseSetLiteral(SimpleCodemod, NameResolutionMixin):
                             return cst.Set(elements=elements)
 
         return updated_node
+
+    def leave_FormattedStringExpression(
+        self,
+        original_node: cst.FormattedStringExpression,
+        updated_node: cst.FormattedStringExpression,
+    ):
+        # `f"{{1, 2}}"` is an escaped brace, not a set: when the rewritten
+        # expression now starts with `{`, keep it apart from the field's brace
+        if (
+            not updated_node.expression.deep_equals(original_node.expression)
+            and self.code(updated_node.expression).startswith("{")
+            and not self.code(original_node.expression).startswith("{")
+            and updated_node.whitespace_before_expression.empty
+        ):
+            return updated_node.with_changes(
+                whitespace_before_expression=cst.SimpleWhitespace(" ")
+            )
+        return updated_node
